@@ -6,7 +6,7 @@ from mbt.checks import c02
 
 PID = "C06"
 MINE = {"NewShapeIdsFresh", "NewSlideIdFresh", "SlideIdsStable", "RidsUniquePerSource", "RidsNotReassigned", "PartNamesUnique",
-        "SlidesNamedInOrderOnceAccessed", "LookupStable", "UniqueMembers", "OperationSucceeds"}
+        "SlidesNamedInOrderOnceAccessed", "LookupStable", "LinksAsSet", "UniqueMembers", "OperationSucceeds"}
 IDS = ["addShape", "autoshape", "textbox", "group", "freeform", "picture", "connector", "table", "setTurbo", "addSlide", "reopen", "access"]
 RIDS = ["addShape", "picture", "notes", "setLink", "changeLink", "clearLink", "setJump", "clearJump", "setRunLink", "setHover", "clearRunLink", "reopen"]
 
